@@ -530,7 +530,7 @@ func c09Compare(r *Run, f *Fedi, openURL string, l *CLayout, kinds []string, wha
 		var off uint
 		c, o := cont, curOff
 		task := r.Spawn(fmt.Sprintf("harvest%d", i), func() { items, next, off = c.Harvest(n, o) })
-		r.Drive(func() bool { return task.Done }, hugeHorizon, 400000)
+		r.Drive(func() bool { return task.Done }, hugeHorizon, stepCapFor(f))
 		if !task.Done {
 			r.Violate("C09", "M-live", "harvest-did-not-return", "listing request did not return")
 			return
